@@ -22,7 +22,8 @@ REPO = os.environ.get("VERIF_REPO", "/repo")
 EXTRACTOR_DIR = os.path.join(VERIF, "extractor")
 EXTRACTOR = os.path.join(EXTRACTOR_DIR, "target", "release", "extractor")
 CONTRACTS = os.path.join(VERIF, "contracts")
-EVIDENCE = os.path.join(VERIF, "evidence")
+# seeded-change evaluations (tools/seed_eval.sh) point this elsewhere so that a mutant run never overwrites the evidence of /repo
+EVIDENCE = os.environ.get("VERIF_EVIDENCE_DIR") or os.path.join(VERIF, "evidence")
 REPLAYS = os.path.join(VERIF, "replays")
 KNOWN = os.path.join(VERIF, "known_findings.json")
 
@@ -208,6 +209,11 @@ def check_unit(u, scratch, args):
     res = {"unit": name, "undecided": [], "failures": [], "trusted_base": [], "functions": [],
            "obligations": [], "solver_ms": 0, "wall_s": 0.0, "checker_cmd": "", "canary": {}}
     mode = u.get("mode", "verus")
+    if mode == "bounded":
+        # a bounded stand-in only (no function of this unit is within the verifier's reach): nothing is extracted,
+        # nothing is counted as an obligation; the native witness below is the whole unit.
+        res["bounded_only"] = True
+        return res
     src, metaf = os.path.join(wd, name + ".rs"), os.path.join(wd, name + ".meta.json")
     r = sh([EXTRACTOR, REPO, udir, src, metaf])
     if r.returncode != 0:
@@ -396,12 +402,12 @@ def run_witness(u, scratch, failed_obligations, tier):
             marker = "// ---- appended by /verif: " + tname + " " + wf
             if marker not in open(tgt).read():
                 open(tgt, "a").write("\n" + marker + "\n" + open(os.path.join(u["_dir"], wf)).read())
-        cmd = ["cargo", "test", "--offline", "--lib"] + w.get("cargo_args", []) + ["verif_witness", "--", "--test-threads", "8"]
+        cmd = ["cargo", "test", "--offline", "--lib"] + w.get("cargo_args", []) + ["verif_witness", "--", "--test-threads", "8", "--show-output"]
     else:
         tdir = os.path.join(crate_dir, "tests")
         os.makedirs(tdir, exist_ok=True)
         shutil.copy(os.path.join(u["_dir"], w["file"]), os.path.join(tdir, tname + ".rs"))
-        cmd = ["cargo", "test", "--offline", "--test", tname] + w.get("cargo_args", []) + ["--", "--test-threads", "8"]
+        cmd = ["cargo", "test", "--offline", "--test", tname] + w.get("cargo_args", []) + ["--", "--test-threads", "8", "--show-output"]
     r = sh(cmd, cwd=crate_dir, env=env)
     out = r.stdout + "\n" + r.stderr
     results = {}
@@ -409,8 +415,16 @@ def run_witness(u, scratch, failed_obligations, tier):
         results[m.group(1).split("::")[-1]] = m.group(2)
     if not results:
         return {"_error": "witness crate did not build/run: " + out[-1500:]}
+    # bounded stand-ins describe themselves: `VERIF-BOUNDED test=<name> evaluations=<n> bound=<text>` on stdout
+    bounded = [{"test": m.group(1), "evaluations": int(m.group(2)), "bound": m.group(3).strip(), "status": results.get(m.group(1), "?")}
+               for m in re.finditer(r"^VERIF-BOUNDED test=(\S+) evaluations=(\d+) bound=(.*)$", out, re.M)]
+    # a bounded stand-in reports a NAMED deviation from the statement without failing: `VERIF-DEVIATION id=<slug> <what>`;
+    # the runner decides: listed as `known` in known_findings.json -> KNOWN-FINDING, otherwise -> VIOLATION.
+    deviations = {}
+    for m in re.finditer(r"^VERIF-DEVIATION id=(\S+) (.*)$", out, re.M):
+        deviations.setdefault(m.group(1), m.group(2).strip())
     shown = r.stdout[-9000:] + "\n--- stderr (tail) ---\n" + r.stderr[-1200:]
-    return {"_results": results, "_cmd": " ".join(cmd), "_output": shown, "_map": w.get("map", {})}
+    return {"_results": results, "_cmd": " ".join(cmd), "_output": shown, "_map": w.get("map", {}), "_bounded": bounded, "_deviations": deviations}
 
 
 def main():
@@ -470,7 +484,7 @@ def project(res, u, prop):
             res["undecided"].append(f"obligation `{n}` of property {own} failed in the shared unit {res['unit']}; "
                                     f"the proof of {prop}'s obligations is modular over it")
     res["obligations"], res["failures"] = obs, fails
-    if not obs and not res["undecided"]:
+    if not obs and not res["undecided"] and not res.get("bounded_only"):
         res["undecided"].append(f"vacuity: unit {res['unit']} has no obligation tagged for {prop}")
     return res
 
@@ -501,7 +515,7 @@ def do_check(prop, args, scratch, seed, t0):
     need_witness = True
     if need_witness:
         for u in units:
-            if u.get("witness") and (args.tier == "thorough" or u.get("witness_in_quick") or u["unit"] in und_units
+            if u.get("witness") and (args.tier == "thorough" or u.get("witness_in_quick") or u.get("mode") == "bounded" or u["unit"] in und_units
                                      or any(n == u["unit"] for n, _ in failures)):
                 failed = [f["obligation"] for n, f in failures if n == u["unit"]]
                 witness[u["unit"]] = run_witness(u, scratch, failed, args.tier)
@@ -532,6 +546,18 @@ def do_check(prop, args, scratch, seed, t0):
                    "found_failing_input": bool(failing_tests)}, open(rp, "w"), indent=1)
         tail = "" if failing_tests else " no-failing-input-found"
         violations.append(f"VIOLATION property={prop} replay={rp} obligation={ob}{tail}")
+
+    # named deviations reported by bounded stand-ins
+    for unit, w in witness.items():
+        for slug, what in w.get("_deviations", {}).items():
+            if slug in known_open:
+                known_hits.append(slug)
+                lines.append(f"KNOWN-FINDING: property={prop} {known_open[slug].get('line', what)}")
+                continue
+            rp = os.path.join(REPLAYS, f"{prop}-deviation-{re.sub(r'[^A-Za-z0-9_.-]', '_', slug)}.json")
+            json.dump({"property": prop, "unit": unit, "obligation": slug, "deviation": what, "witness":
+                       {"cmd": w.get("_cmd"), "output": w.get("_output")}, "found_failing_input": True}, open(rp, "w"), indent=1)
+            violations.append(f"VIOLATION property={prop} replay={rp} bounded-native-witness-deviation={slug}")
 
     # thorough: a failing native witness that no obligation explains is still a violation of the property
     for unit, w in witness.items():
@@ -580,7 +606,7 @@ def do_check(prop, args, scratch, seed, t0):
             "native_witness_tests": {u: w.get("_results", w.get("_error")) for u, w in witness.items()},
             "samples": [o["id"] for o in all_obs][:12],
             "exhaustive": False,
-            "bounded_checks": [],
+            "bounded_checks": [dict(b, unit=u, counted_as="bounded stand-in, never counted as proved") for u, w in witness.items() for b in w.get("_bounded", [])],
         },
         "assumptions": notes.get("assumptions", []) + ["every entry of coverage.trusted_base is an assumed contract"],
         "wall_s": round(time.time() - t0, 2),
